@@ -4,10 +4,13 @@
 package sarama
 
 import (
+	"fmt"
+	"net"
 	"sort"
 	"strconv"
 	"strings"
 	"sync"
+	"time"
 )
 
 // Scripted in-package mock cluster for the C19 harness: a few MockBrokers whose handler follows a
@@ -62,7 +65,7 @@ type verifNoT struct{}
 
 func (verifNoT) Error(...interface{})          {}
 func (verifNoT) Errorf(string, ...interface{}) {}
-func (verifNoT) Fatal(a ...interface{})        { panic("mockbroker fatal") }
+func (verifNoT) Fatal(a ...interface{})        { panic("mockbroker fatal: " + fmt.Sprint(a...)) }
 func (verifNoT) Fatalf(f string, a ...interface{}) {
 	panic("mockbroker fatal: " + f)
 }
@@ -76,7 +79,20 @@ func (g *verifGarbage) headerVersion() int16         { return g.hv }
 func NewVerifCluster(n int) *VerifCluster {
 	c := &VerifCluster{s: &VerifScript{}}
 	for i := 1; i <= n; i++ {
-		b := NewMockBroker(verifNoT{}, int32(i))
+		// the machine is shared with other network-heavy harnesses: a momentary failure to get a port is the
+		// environment's, not the code's - wait and try again
+		var ln net.Listener
+		var err error
+		for try := 0; try < 40; try++ {
+			if ln, err = net.Listen("tcp", "127.0.0.1:0"); err == nil {
+				break
+			}
+			time.Sleep(250 * time.Millisecond)
+		}
+		if err != nil {
+			panic("cannot listen: " + err.Error())
+		}
+		b := NewMockBrokerListener(verifNoT{}, int32(i), ln)
 		id := int32(i)
 		b.setHandler(func(req *request) encoderWithHeader { return c.handle(id, req) })
 		c.Brokers = append(c.Brokers, b)
